@@ -351,6 +351,9 @@ def _run_check(ctx, fam, prop, tier, t0):
     violations = 0
     exit_code = 0
     for tname, vs in mine.items():
+        if violations >= 3:
+            log("further violating traces not re-run: %d" % (len(mine) - 3))
+            break
         (a, b, f, name) = byname[tname]
         t = byfile[f]
         # reproduce: re-run the same inputs, validate alone
